@@ -277,6 +277,14 @@ theorem loader_accepted_action_passes_cursor_tests (l : CodeLoad.Limits) (pt : N
     ∃ cur', curRun ⟨l.preContext, l.ruleLength, false⟩ p.instrs = some cur' ∧ (cur'.dels = true → p.delete = true) :=
   CodeLoad.accepted_action_passes_cursor_tests l pt bc p hrl h
 
+/-- **… in the very form the pipeline theorems assume it** (`codeOK`): the loader model and the pipeline model cut the bytes into the same
+instructions (`loop_decode`), `TEMP_COPY` insertions change nothing for the cursor tests, and the pipeline model's `deletes` flag is set
+whenever a `DELETE` was read (`analyse_fold_deletes`).  So for a rule whose action the loader accepts with `pre_context < rule_length`
+(`Pass::readRules`), the action half of `ruleOK` holds. -/
+theorem loader_accepted_action_is_codeOK (l : CodeLoad.Limits) (pt : Nat) (bc : List Nat) (p : CodeLoad.Loaded) (hrl : l.ruleLength < 65536)
+    (h : CodeLoad.load l false pt bc = .ok (.ok (some p))) : codeOK ⟨l.preContext, l.ruleLength, false⟩ bc true = true :=
+  CodeLoad.accepted_action_is_codeOK l pt bc p hrl h
+
 /-! non-vacuity: the jump font above meets the hypothesis.  At the level of one action the hypothesis is what stands between the
 machine and the null pointer: on a one-slot stream the code `next; put_glyph` (`_out_index = 1 = _out_length` at the `put_glyph`:
 refused by `test_context()`) fails `curRun` and the model reports exactly the fault the theorems exclude, while `put_glyph; next`
